@@ -35,9 +35,9 @@ def matches(finding: Dict[str, Any], pid: str, v: Dict[str, Any]) -> bool:
     if pid not in finding.get("properties", []):
         return False
     m = finding.get("match", {})
-    if "check" in m and m["check"] != v.get("check"):
+    if "check" in m and v.get("check") not in (m["check"] if isinstance(m["check"], list) else [m["check"]]):
         return False
-    if "symptom" in m and m["symptom"] != v.get("symptom"):
+    if "symptom" in m and v.get("symptom") not in (m["symptom"] if isinstance(m["symptom"], list) else [m["symptom"]]):
         return False
     if "site" in m and not re.fullmatch(m["site"], v.get("site") or ""):
         return False
